@@ -236,8 +236,12 @@ def jobs(tier):
         if not q:
             add(T=3, CALLS=2, KEYS=2, FSUSP=1, ms=ms, KEYSPACE=2)
             add(T=2, CALLS=3, KEYS=3, FSUSP=1, ms=ms, KEYSPACE=3)
-            add(T=3, CALLS=1, KEYS=3, FSUSP=2, ms=ms, KEYSPACE=3, K=2)
-            add(T=4, CALLS=1, KEYS=2, FSUSP=1, ms=ms, KEYSPACE=2)
+            for c0 in range(3):
+                for c1 in range(3):  # partitioned by the first two scheduling choices
+                    add(T=3, CALLS=1, KEYS=3, FSUSP=2, ms=ms, KEYSPACE=3, K=2, c0=c0, c1=c1)
+            for c0 in range(4):
+                for c1 in range(4):
+                    add(T=4, CALLS=1, KEYS=2, FSUSP=1, ms=ms, KEYSPACE=2, c0=c0, c1=c1)
     return J
 
 
